@@ -39,6 +39,15 @@ pub struct Plan {
     /// be re-read from disk when a reorganisation unwinds them; 0 = the default (8)
     #[serde(default)]
     pub prune_after: u64,
+    /// long-chain family (mode "long-chain"): (genesis period, chain length, depth of the final reorganisation;
+    /// 0 = none). The chain outgrows the block ring (2 x genesis period slots) one to three times.
+    #[serde(default)]
+    pub long: Option<(u64, u64, u64)>,
+    /// long-chain family: when the producer chain reaches this height (> 0) the node is first offered an
+    /// invalid block of that height + 1 (re-signed, wrong burn fee), which it has to refuse without a trace:
+    /// the chain then grows more than a full ring past it
+    #[serde(default)]
+    pub reject_at: u64,
 }
 
 fn factorial(n: u64) -> u64 {
@@ -91,11 +100,21 @@ fn gen_exhaustive(seed: u64, n: usize, k: u64) -> Plan {
         nodes,
         order,
         prune_after: 0,
+        long: None,
+        reject_at: 0,
     }
 }
 
 fn gen_random(seed: u64, tier: Tier) -> Plan {
     let mut rng = Rng::new(seed);
+    if rng.chance(1, 12) {
+        let gp = rng.range(3, 6);
+        let ring = 2 * gp;
+        let len = rng.range(ring + 1, if tier == Tier::Quick { 2 * ring + 3 } else { 3 * ring + 3 });
+        let depth = if rng.chance(1, 2) { rng.range(1, (gp - 2).max(1)) } else { 0 };
+        let reject_at = if rng.chance(1, 2) { rng.range(2, gp + 1) } else { 0 };
+        return Plan { seed, mode: "long-chain".into(), nodes: vec![], order: vec![], prune_after: *rng.pick(&[1u64, 2, 8]), long: Some((gp, len, depth)), reject_at };
+    }
     let max_n = if tier == Tier::Quick { 15 } else { 30 };
     let n = rng.range(3, max_n) as usize;
     let mut nodes: Vec<TreeNode> = vec![];
@@ -202,6 +221,8 @@ fn gen_random(seed: u64, tier: Tier) -> Plan {
         nodes,
         order,
         prune_after: *rng.pick(&[0u64, 0, 1, 2, 3]),
+        long: None,
+        reject_at: 0,
     }
 }
 
@@ -307,6 +328,171 @@ fn check_node(
 
 type SaitoHashT = [u8; 32];
 
+/// tip, by-height index and on-chain flags of `n` against the producer's chain `recs` (ids 1..): inside the
+/// genesis window the index must name the chain's block; below it (purged, or the slot re-used by a later lap
+/// of the ring) it names that block or nothing; above the tip nothing
+fn check_long(r: &mut RunResult, n: &Node, recs: &[BlockRec], gp: u64, what: &str) -> bool {
+    let (tip_id, tip_hash) = n.tip();
+    let want_tip = recs.last().unwrap();
+    if tip_id != want_tip.id || tip_hash != want_tip.hash {
+        return false; // the caller decides whether the node had to follow
+    }
+    for rec in recs {
+        let got = n.bc.blockring.get_longest_chain_block_hash_at_block_id(rec.id);
+        let in_window = rec.id + gp > tip_id;
+        let ok = got == Some(rec.hash) || (got.is_none() && !in_window);
+        if !ok {
+            r.violate(
+                if in_window { "C03|index|wrong-at-height" } else { "C03|index|wrong-below-window" },
+                format!("long chain (genesis period {}, {}): tip {}, index at id {} is {:?}, the chain has {}", gp, what, tip_id, rec.id, got.map(hex::encode), hex::encode(rec.hash)),
+            );
+            return true;
+        }
+    }
+    for id in tip_id + 1..=tip_id + 2 * gp + 2 {
+        if let Some(h) = n.bc.blockring.get_longest_chain_block_hash_at_block_id(id) {
+            r.violate("C03|index|entry-above-tip", format!("long chain (genesis period {}, {}): index at id {} (> tip {}) is {}", gp, what, id, tip_id, hex::encode(h)));
+            return true;
+        }
+    }
+    for (h, b) in n.bc.blocks.iter() {
+        let on = recs.iter().any(|x| x.hash == *h);
+        if b.in_longest_chain != on {
+            r.violate(
+                if b.in_longest_chain { "C03|flag|set-off-chain" } else { "C03|flag|unset-on-chain" },
+                format!("long chain (genesis period {}, {}): block {} (id {}) in_longest_chain={} but on the chain={}", gp, what, hex::encode(h), b.id, b.in_longest_chain, on),
+            );
+            return true;
+        }
+    }
+    true
+}
+
+fn long_chain_family(plan: &Plan) -> RunResult {
+    let mut r = RunResult::default();
+    let (gp, len, depth) = plan.long.unwrap();
+    let params = Params { genesis_period: gp, heartbeat: 1000, n_users: 3, slips_per_user: 4, base_amount: 1_000_000 };
+    let mut rng = Rng::new(mix(plan.seed, 0x10c3));
+    let mut c = match crate::util::guarded(|| Chain::new(plan.seed, params.clone(), plan.prune_after.max(1))) {
+        Ok(Ok(c)) => c,
+        _ => {
+            r.discarded = true;
+            return r;
+        }
+    };
+    let mut n = Node::new(&c.cfg, &c.keys[2].clone());
+    let _ = n.add_block_bytes(&c.recs[0].bytes.clone());
+    let mut trace = Digest::new();
+    let grow = |c: &mut Chain, rng: &mut Rng, dt: u64| -> Option<usize> {
+        let mut txs = vec![];
+        let user = 1 + rng.usize_below(3);
+        if let Some((t, _)) = c.payment(user, 1 + rng.usize_below(3), rng.usize_below(64), rng.below(3) * 700, 0, &[]) {
+            txs.push(t);
+        } else {
+            let tag = c.tag();
+            let ts = c.tip_rec().ts + tag;
+            txs.push(make_tx(&c.keys[1].clone(), &[], &[(c.keys[1].pk, 0)], ts, &tag.to_le_bytes()));
+        }
+        let tip_hash = c.tip_rec().hash;
+        let want = (c.tip_rec().id + 1) % 2 == 0;
+        let gt = want || !c.node.bc.is_golden_ticket_count_valid(tip_hash, want, false, false);
+        match crate::util::guarded(|| c.extend(txs, gt, dt)) {
+            Ok(Ok(i)) => Some(i),
+            _ => None,
+        }
+    };
+    while c.tip_rec().id < len {
+        let i = match grow(&mut c, &mut rng, 2300) {
+            Some(i) => i,
+            None => {
+                // the producer refused its own block (C07's subject)
+                r.probe("long_producer_refused");
+                break;
+            }
+        };
+        if plan.reject_at > 0 && c.recs[i].id == plan.reject_at + 1 {
+            // first an invalid version of this very block
+            let good = c.node.bc.get_block(&c.recs[i].hash).cloned();
+            if let Some(bad) = good.and_then(|g| tamper_block(&g, "burnfee", &c.keys[0].clone())) {
+                let bad_bytes = bad.serialize_for_net(saito_core::core::consensus::block::BlockType::Full);
+                let tip0 = n.tip();
+                match crate::util::guarded(|| n.add_block_bytes(&bad_bytes)) {
+                    Ok(x) => {
+                        trace.str(&format!("bad {:?}", x.as_ref().map(outcome_of)));
+                        if n.tip() != tip0 {
+                            r.violate("C03|tip|moved-to-invalid-block", format!("long chain (genesis period {}): the invalid block {} moved the tip", gp, plan.reject_at + 1));
+                            return r;
+                        }
+                        r.fault("invalid_block_before_ring_wrap", 1);
+                    }
+                    Err(p) => {
+                        r.violate(format!("C03|panic|{}", p.site()), format!("long chain, invalid block: {} ({}:{})", p.msg, p.file, p.line));
+                        return r;
+                    }
+                }
+            }
+        }
+        let bytes = c.recs[i].bytes.clone();
+        match crate::util::guarded(|| n.add_block_bytes(&bytes)) {
+            Ok(x) => trace.str(&format!("{:?}", x.as_ref().map(outcome_of))),
+            Err(p) => {
+                r.violate(format!("C03|panic|{}", p.site()), format!("long chain: {} ({}:{})", p.msg, p.file, p.line));
+                return r;
+            }
+        };
+        r.steps += 1;
+        if !check_long(&mut r, &n, &c.recs, gp, "linear growth") {
+            r.violate("C03|tip|not-following", format!("long chain (genesis period {}): after block {} the node's tip is {}", gp, c.tip_rec().id, n.tip().0));
+        }
+        if !r.violations.is_empty() {
+            return r;
+        }
+    }
+    if c.tip_rec().id > 2 * gp {
+        r.fault("block_ring_wrapped", (c.tip_rec().id - 1) / (2 * gp));
+        let mut d = Digest::new();
+        d.u64(gp).u64(c.tip_rec().id).u64(depth).u64(plan.prune_after);
+        r.nontrivial.push(d.get());
+    }
+    // a reorganisation after the wrap
+    if depth > 0 && c.recs.len() as u64 > depth + 2 {
+        let at = c.recs.len() - 1 - depth as usize;
+        if let Ok(Ok(mut f)) = crate::util::guarded(|| c.fork_at(at)) {
+            let mut good = true;
+            for _ in 0..=depth {
+                match grow(&mut f, &mut rng, 2371) {
+                    Some(i) => {
+                        let bytes = f.recs[i].bytes.clone();
+                        if let Err(p) = crate::util::guarded(|| n.add_block_bytes(&bytes)) {
+                            r.violate(format!("C03|panic|{}", p.site()), format!("long chain, reorganisation: {} ({}:{})", p.msg, p.file, p.line));
+                            return r;
+                        }
+                    }
+                    None => {
+                        good = false;
+                        break;
+                    }
+                }
+            }
+            if good {
+                r.fault("reorganisation_after_ring_wrap", 1);
+                // the fork is strictly longer; whether it also carries enough burn fee is C05's question:
+                // the node is on one of the two chains, and consistent with the one it reports
+                let on_fork = n.tip().1 == f.tip_rec().hash;
+                let recs = if on_fork { &f.recs } else { &c.recs };
+                trace.str(if on_fork { "fork" } else { "main" });
+                if !check_long(&mut r, &n, recs, gp, if on_fork { "after the reorganisation" } else { "fork not adopted" }) {
+                    r.violate("C03|tip|not-a-delivered-chain-tip", format!("long chain (genesis period {}): after the fork the node's tip {} is the tip of neither chain", gp, n.tip().0));
+                }
+            }
+        }
+    }
+    trace.bytes(&n.tip().1);
+    r.state_hash = trace.get();
+    r.trace_hash = trace.get();
+    r
+}
+
 pub fn build_tree(w: &mut World, nodes: &[TreeNode], seed: u64) -> Result<Vec<(u64, usize)>, String> {
     // returns uid -> world index
     let mut map: Vec<(u64, usize)> = vec![(0, 0)];
@@ -343,7 +529,7 @@ impl Scenario for C03 {
     fn meta(&self) -> Meta {
         Meta {
             level: "exploration",
-            rule: "run = one block tree built with the real Block::create (cross-fork conflicting spends arise because each fork spends from its own parent's ledger) + one delivery order (permutations incl. child-before-parent, duplicates, header-tampered invalid tips) into one real Blockchain::add_block (prune depth 1, 2, 3 or 8, so that reorganisations unwind blocks whose transactions have to be re-read from disk; one style in five is a single deep reorganisation: branch A delivered completely, then the longer branch B); checked after every delivery against a replay of the reported chain in an independent reference ledger. The first exhaustive_prefix runs enumerate all parent vectors of n non-genesis blocks x all n! delivery orders. distinct_nontrivial = distinct (tree shape, delivery order, invalid set) digests of runs that performed >= 1 reorganisation (tip moved to a block whose parent was not the previous tip).",
+            rule: "run = one block tree built with the real Block::create (cross-fork conflicting spends arise because each fork spends from its own parent's ledger) + one delivery order (permutations incl. child-before-parent, duplicates, header-tampered invalid tips) into one real Blockchain::add_block (prune depth 1, 2, 3 or 8, so that reorganisations unwind blocks whose transactions have to be re-read from disk; one style in five is a single deep reorganisation: branch A delivered completely, then the longer branch B); checked after every delivery against a replay of the reported chain in an independent reference ledger. One random run in twelve is the long-chain family: a producer chain with genesis period 3..6 grown to 1-3 times the block ring (2 x genesis period slots), block by block into a node, in half of them preceded at a height <= gp by an invalid (re-signed, wrong burn fee) version of the next block that the node has to refuse without a trace before the ring wraps over its slot, and optionally followed by a reorganisation of depth 1..gp-2 after the wrap; after every block: tip, by-height index for every id from 1 to tip + ring (the chain's block inside the genesis window, that block or nothing below it, nothing above the tip) and the on-chain flag of every stored block. The first exhaustive_prefix runs enumerate all parent vectors of n non-genesis blocks x all n! delivery orders. distinct_nontrivial = distinct (tree shape, delivery order, invalid set) digests of runs that performed >= 1 reorganisation (tip moved to a block whose parent was not the previous tip).",
             real: &["Blockchain::add_block/validate/wind_chain/unwind_chain", "BlockRing", "RingItem", "Block::create/generate/validate/on_chain_reorganization", "Transaction", "Slip", "Mempool", "Wallet", "Storage", "secp256k1", "blake3"],
             stubs: &["SimIo (in-memory disk, no network)", "SimConfig", "vendored ahash with fixed seeds"],
             assumptions: &["genesis period >> tree height (retention edge is C13's)", "blocks reach add_block decoded from bytes as on the fetch path", "sampling, not proof, beyond the enumerated prefix"],
@@ -373,6 +559,9 @@ impl Scenario for C03 {
     }
     fn execute(&self, plan: &Value) -> RunResult {
         let plan: Plan = serde_json::from_value(plan.clone()).expect("plan");
+        if plan.long.is_some() {
+            return long_chain_family(&plan);
+        }
         let mut r = RunResult::default();
         let mut w = World::new(plan.seed, Params::default());
         let built = crate::util::guarded(|| build_tree(&mut w, &plan.nodes, plan.seed));
